@@ -5,7 +5,9 @@ EXTENDS NlParser, IOUtils
 
 VARIABLE t
 Family == IF "FAMILY" \in DOMAIN IOEnv THEN IOEnv.FAMILY ELSE "pairs"
-Trees == IF Family = "triples" THEN TripleTrees ELSE PairTrees \cup MixedTrees
+Trees == IF Family = "triples" THEN TripleTrees ELSE IF Family = "statements"
+         \* (without the anonymous function: its empty name is "" in the families and <<>> in the parser)
+         THEN {p \in StmtProgs : ~(p[1].k = "Let" /\ p[1].name = "g")} ELSE PairTrees \cup MixedTrees
 Init == t \in Trees
 Next == UNCHANGED t
 
@@ -30,6 +32,6 @@ ToToks(sp, i) ==
   ELSE <<[k |-> Spell[sp[i]], txt |-> <<>>, e |-> 0]>> \o ToToks(sp, i + 1)
 
 (* identifiers are TLA+ strings in the families and stay so through the parser: compare with TEq *)
-Prog == <<[k |-> "Expr", e |-> t]>>
+Prog == IF Family = "statements" THEN t ELSE <<[k |-> "Expr", e |-> t]>>
 RoundTrip == LET r == ParseTokens(ToToks(Unparse(Prog), 1)) IN r.ok /\ TEqSeq(r.t, Prog)
 =============================================================================
